@@ -231,7 +231,7 @@ def absorbObs (w : World) : World :=
     | [] => (seg, keep)
     | o :: os =>
       match o with
-      | .wrote b => go { seg with wrote := seg.wrote ++ b } keep os
+      | .wrote b _ => go { seg with wrote := seg.wrote ++ b } keep os
       | .event n => go { seg with events := seg.events ++ [n] } keep os
       | .closing e => go { seg with closing := seg.closing ++ [e] } keep os
       | .eventsEnd => go { seg with eventsEnd := true } keep os
